@@ -157,8 +157,8 @@ Fixpoint run_polls (polls : nat) (c : codec) (st : rstate) (wire : list N) (scri
    a reader task drains the accepting side concurrently until the end of the stream.
    trace := 2, one code per op, number of frames, RLE of every frame, reader's final code (1 = clean end).
    Messages are kept as (b, len) here: no byte list is built, so sizes of several flow-control
-   windows are fine. What the trace must look like is the executable face of C04_roundtrip +
-   C04_close_flushes under a fair schedule. *)
+   windows are fine. What the trace must look like is the executable face of C04_roundtrip,
+   C04_close_sends_nothing and C04_close_after_flush_complete under a fair schedule. *)
 Record eop := mkEop { e_tag : N; e_b : N; e_len : N }.
 
 Definition p_eop : parser eop :=
@@ -203,21 +203,49 @@ Definition e2e_code (c : codec) (o : eop) : N :=
   | _ => 1
   end.
 
+(* frames that reach the peer: feed = poll_ready (a flush when BACKPRESSURE_BOUNDARY bytes are
+   queued) + start_send; flush and send_framed write out everything queued; close writes nothing,
+   so what is still queued then is dropped. q = queued frames (newest first), pb = queued bytes. *)
+Fixpoint e2e_go (c : codec) (ops : list eop) (q : list (list N)) (pb : N) : list (list N) :=
+  match ops with
+  | [] => []
+  | o :: t =>
+      match e_tag o with
+      | 1 =>
+          let flushed := if BP <=? pb then rev q else [] in
+          let q1 := if BP <=? pb then [] else q in
+          let pb1 := if BP <=? pb then 0 else pb in
+          if fits_len c (e_len o)
+          then flushed ++ e2e_go c t (msg_rle (e_b o) (e_len o) :: q1)
+                                 (pb1 + e_len o + match c with Identity _ => 0 | Varint _ => lenN (varint_enc (e_len o)) end)
+          else flushed ++ e2e_go c t q1 pb1
+      | 2 => rev q ++ e2e_go c t [] 0
+      | 3 => rev q ++ (if fits_len c (e_len o) then [msg_rle (e_b o) (e_len o)] else []) ++ e2e_go c t [] 0
+      | _ => e2e_go c t [] 0
+      end
+  end.
+
 Definition e2e_frames (c : codec) (ops : list eop) : list (list N) :=
   match c with
   | Identity 0 => []      (* C04_identity_zero: nothing is ever delivered *)
-  | _ => flat_map (fun o => match e_tag o with
-                            | 1 | 3 => if fits_len c (e_len o) then [msg_rle (e_b o) (e_len o)] else []
-                            | _ => []
-                            end) ops
+  | _ => e2e_go c ops [] 0
+  end.
+
+(* yamux announces a stream with its first data frame: when no byte at all is written the
+   accepting side never sees the stream (reader code 8), otherwise it sees a clean end (1) *)
+Definition e2e_fin (c : codec) (ops : list eop) : N :=
+  match c with
+  | Identity 0 => 8
+  | _ => if is_nil (e2e_go c ops [] 0) then 8 else 1
   end.
 
 Definition run_e2e (c : codec) (ops : list eop) : list N :=
   2 :: map (e2e_code c) ops ++
-  N.of_nat (length (e2e_frames c ops)) :: concat (e2e_frames c ops) ++ [1].
+  N.of_nat (length (e2e_frames c ops)) :: concat (e2e_frames c ops) ++ [e2e_fin c ops].
 
 (* every refusal is justified, everything else succeeded, the frames delivered are exactly the
-   accepted messages in call order, and the reader saw a clean end of stream *)
+   accepted messages that were flushed (or sent by send_framed) before the close, in call order,
+   and the reader saw a clean end of stream *)
 Definition e2e_ok (c : codec) (ops : list eop) (trace : list N) : bool :=
   nlist_eqb trace (run_e2e c ops).
 
@@ -332,15 +360,16 @@ Definition wstep_ok (c : codec) (clean : bool) (o : op) (prev x : wobs) (acc tot
         (* error / abandoned: whatever got out is a prefix of the queued bytes followed by the frame *)
         if is_prefix total' (acc ++ frame c m) then Some (acc, total', true) else None
   | OClose =>
-      if wo_code x =? 1 then
-        if queue_empty && nlist_eqb total' acc && (wo_shut x =? 1) then Some (acc, total', false) else None
-      else if conserve acc && shut_same then Some (acc, total', false) else None
+      (* close = shutdown of the carrier: no byte is handed over, the queue is untouched (frames
+         that were only start_send'ed stay unsent); the carrier is shut down iff Ok is reported *)
+      if negb (is_nil (wo_delta x) && same_state && conserve acc) then None else
+      if wo_code x =? 1 then (if wo_shut x =? 1 then Some (acc, total', false) else None)
+      else if shut_same then Some (acc, total', false) else None
   | OCloseAll =>
-      if negb (is_prefix total' acc) then None else
+      if negb (is_nil (wo_delta x) && is_prefix total' acc) then None else
       if (wo_code x =? 1) && clean then
-        (* close(self) completed and the carrier never failed: everything handed over went out
-           before the shutdown *)
-        if nlist_eqb total' acc && (wo_shut x =? 1) then Some (acc, total', false) else None
+        (* close(self) completed and the carrier never failed: it has been shut down *)
+        if wo_shut x =? 1 then Some (acc, total', false) else None
       else Some (acc, total', false)
   end.
 
@@ -435,5 +464,5 @@ Definition prop_ok (case trace : list N) : bool :=
   | _, _ => false
   end.
 
-(* No known-finding classes for C04: the defects found were repaired (fix: commits). *)
+(* No known-finding classes for C04: the defects found were repaired (fix: commits F-C04a..f). *)
 Definition known_class (case trace : list N) : N := 0.
